@@ -1,6 +1,6 @@
 (* C06 — proofs. *)
 From Coq Require Import NArith Arith List Bool Lia Sorting.Permutation Sorting.Sorted.
-From Dolt Require Import Base.Str Gen.C01Consts C01.Model C01.Spec C01.Proofs C06.Model C06.Spec.
+From Dolt Require Import Base.Str Gen.C01Consts C01.Model C01.Spec C01.Proofs C01.ProofsBytes C01.ProofsSort C01.ProofsTable C06.Model C06.Spec.
 Import ListNotations.
 Local Open Scope N_scope.
 
@@ -108,37 +108,43 @@ Proof.
 Qed.
 
 (* ------------------------------------------------------------------ *)
-(* Table round trip.
-   FULL STATEMENT (DESIGN §5 C06 table_roundtrip): for every chunk list,
-   iterate_all (open (write_table cs)) is a permutation of cs, get h returns the
-   bytes put, every h not in cs is absent, count = length cs,
-   uncompressed_total = sum of sizes.
-   PROVED HERE (table_roundtrip_partial): everything except
-     (i)  parse_index (write_table_with ts rs) = Some (build_pindex ts rs)
-          (the byte-level decode of the index block; the executable parse_index is
-          run on every real file by the correspondence and compared field by
-          field through the reads), and
-     (ii) the iterate_all permutation (checked by the correspondence as a sorted
-          multiset equality on every file). *)
+(* Table round trip, from the BYTES (DESIGN §5 C06 table_roundtrip).
+   For every record list with distinct addresses (any prefixes, equal 8-byte
+   prefixes included) that fits the format (uint32 count / lengths, uint64 total),
+   and every prefix-sorted outcome ts of the index sort: the written file re-opens
+   (parse_index of its bytes), reports count and uncompressed size, returns every
+   chunk byte for byte, reports every absent address absent, and iterateAllChunks
+   yields exactly the stored chunks (in storage order, hence a permutation). *)
 Section RoundTrip.
   Variable crc : bytes -> N.
   Variable compress : bytes -> bytes.
   Variable decompress : bytes -> option bytes.
   Hypothesis decompress_compress : forall d, decompress (compress d) = Some d.
 
-  Theorem table_roundtrip_partial ts rs (content : addr -> bytes) :
-    valid_tuples ts rs -> distinct_addrs rs ->
-    (forall k, (k < length rs)%nat ->
-       wf_rec crc compress (nth k rs dummy_rec) (content (r_addr (nth k rs dummy_rec)))) ->
-    let t := mkTable (write_table_with ts rs) (build_pindex ts rs) in
-    table_count t = nlen rs /\ table_unc t = total_unc rs
-    /\ (forall h, table_get crc decompress t h = ROk (if in_table rs h then Some (content h) else None))
-    /\ (forall h, table_has t h = in_table rs h)
-    /\ (forall h, lookup (t_ix t) h = lookup_spec rs h).
+  Theorem table_roundtrip ts rs (content : addr -> bytes) :
+    valid_tuples ts rs -> table_fits rs -> recs_ok crc compress content rs ->
+    exists t, open_table (write_table_with ts rs) = Some t
+      /\ table_count t = nlen rs /\ table_unc t = total_unc rs
+      /\ (forall h, table_get crc decompress t h = ROk (if in_table rs h then Some (content h) else None))
+      /\ (forall h, table_has t h = in_table rs h)
+      /\ (forall h, lookup (t_ix t) h = lookup_spec rs h)
+      /\ table_iterate crc decompress t = ROk (map (chunk_of content) rs).
   Proof.
-    intros Hv D W. cbn zeta. repeat split.
-    - intros h. apply (table_get_written crc compress decompress decompress_compress ts rs content h Hv D W).
-    - intros h. apply table_has_written. exact Hv.
-    - intros h. apply lookup_write_index; assumption.
+    intros Hv Fit OK. exists (mkTable (write_table_with ts rs) (build_pindex ts rs)).
+    assert (T : tbl_rep crc compress content (mkTable (write_table_with ts rs) (build_pindex ts rs)) rs)
+      by (exists ts; split; [exact Hv | split; [reflexivity | exact OK]]).
+    split; [apply open_write_table; assumption|]. split; [reflexivity|]. split; [reflexivity|].
+    split; [intros h; apply (tbl_get crc compress decompress decompress_compress content _ rs h T)|].
+    split; [intros h; apply (tbl_has crc compress content _ rs h T)|].
+    split; [intros h; apply lookup_write_index; [exact Hv | exact (proj1 OK)]|].
+    apply (tbl_iterate crc compress decompress decompress_compress content _ rs T).
   Qed.
 End RoundTrip.
+
+(* NOT proved (checked by the correspondence only, byte for byte against
+   planTableConjoin and against real archives):
+     conjoin_roundtrip : contents (conjoin fs) = union of contents f (duplicates kept, lookup_any
+       then serves one of the equal copies) — the model conjoin_with is compared with the
+       implementation's conjoined file and all reads on every run;
+     archive_roundtrip : only the index search (prolly_bin_search_spec) is proved;
+     batches_cover (read batching arithmetic). *)
